@@ -229,7 +229,14 @@ def run_check(pid: str, fn: Any, tier: str, level: str = "other") -> int:
         # a rule that reports a violation not listed as known is not "blind": its shortfall of instances (a violating construct
         # often ends the rule's walk early) must not turn the violation into an analysis error
         kk = {(k.get("rule"), k.get("key")) for k in load_known().get("findings", []) if k.get("property") == pid}
-        ev.check_minima(exempt={f.rule for f in findings if (f.rule, f.key) not in kk})
+        fresh = [f for f in findings if (f.rule, f.key) not in kk]
+        try:
+            ev.check_minima(exempt={f.rule for f in fresh})
+        except AnalysisError as e:
+            if not fresh:
+                raise
+            # a definite violation is reported; the shortfall of another rule on the same (changed) construct is only noted
+            print(f"note: {e} - reported together with the violation(s) below")
     except AnalysisError as e:
         print(f"ANALYSIS-ERROR property={pid} {e}")
         return 2
